@@ -4,7 +4,9 @@
 // construction, the behaviour of the original, so any report on it is wrong.
 //
 // usage: neutralfuzz -dir <scratch repo> -pkg ./internal/wire -func <name|*> -t <transform>
-// transforms: rename, invert, swapeq, negform, demorgan, parens, constextract, hoistcond
+// transforms: rename, invert, swapeq, negform, demorgan, parens, constextract, hoistcond,
+// guard2else, switch2if, if2switch, retlocal, varform, reorder, splitinit, mergeinit, hoistarg,
+// ret2else, splitand, lencmp, incr, boolret, predfunc, rangeidx
 package main
 
 import (
@@ -13,6 +15,7 @@ import (
 	"fmt"
 	"go/ast"
 	"go/format"
+	"go/parser"
 	"go/token"
 	"go/types"
 	"os"
@@ -39,6 +42,49 @@ func main() {
 	p := pkgs[0]
 	changed := map[*ast.File]bool{}
 	n := 0
+	if *tr == "reorder" {
+		// reverse the order of the function declarations of every file (text chunks, comments travel with their declaration)
+		for _, f := range p.Syntax {
+			tf := p.Fset.File(f.Pos())
+			src, err := os.ReadFile(tf.Name())
+			if err != nil {
+				fmt.Fprintln(os.Stderr, err)
+				os.Exit(2)
+			}
+			type chunk struct{ lo, hi int }
+			var fns []chunk
+			for _, d := range f.Decls {
+				fd, ok := d.(*ast.FuncDecl)
+				if !ok {
+					continue
+				}
+				lo := fd.Pos()
+				if fd.Doc != nil {
+					lo = fd.Doc.Pos()
+				}
+				fns = append(fns, chunk{tf.Offset(lo), tf.Offset(fd.End())})
+			}
+			if len(fns) < 2 {
+				continue
+			}
+			var out []byte
+			prev := 0
+			for i, c := range fns {
+				out = append(out, src[prev:c.lo]...)
+				r := fns[len(fns)-1-i]
+				out = append(out, src[r.lo:r.hi]...)
+				prev = c.hi
+			}
+			out = append(out, src[prev:]...)
+			if err := os.WriteFile(tf.Name(), out, 0o644); err != nil {
+				fmt.Fprintln(os.Stderr, err)
+				os.Exit(2)
+			}
+			n += len(fns)
+		}
+		fmt.Printf("%d sites rewritten\n", n)
+		return
+	}
 	for _, f := range p.Syntax {
 		for _, d := range f.Decls {
 			fd, ok := d.(*ast.FuncDecl)
@@ -250,6 +296,575 @@ func apply(p *packages.Package, f *ast.File, fd *ast.FuncDecl, tr string) int {
 			n++
 			return true
 		}, nil)
+	case "guard2else":
+		// inside a loop body:  if c { X; continue }; REST   →   if c { X } else { REST }
+		ast.Inspect(fd.Body, func(nd ast.Node) bool {
+			var body *ast.BlockStmt
+			switch l := nd.(type) {
+			case *ast.ForStmt:
+				body = l.Body
+			case *ast.RangeStmt:
+				body = l.Body
+			}
+			if body == nil {
+				return true
+			}
+			for i, st := range body.List {
+				is, ok := st.(*ast.IfStmt)
+				if !ok || is.Else != nil || len(is.Body.List) == 0 || i == len(body.List)-1 {
+					continue
+				}
+				br, ok := is.Body.List[len(is.Body.List)-1].(*ast.BranchStmt)
+				if !ok || br.Tok != token.CONTINUE || br.Label != nil {
+					continue
+				}
+				rest := body.List[i+1:]
+				// the rest must not declare anything used by a label/goto trick; plain statements only
+				is.Body.List = is.Body.List[:len(is.Body.List)-1]
+				is.Else = &ast.BlockStmt{List: append([]ast.Stmt{}, rest...)}
+				body.List = body.List[:i+1]
+				n++
+				break
+			}
+			return true
+		})
+	case "switch2if":
+		// tagless switch without init/fallthrough/break → if / else-if chain
+		astutil.Apply(fd.Body, nil, func(c *astutil.Cursor) bool {
+			sw, ok := c.Node().(*ast.SwitchStmt)
+			if !ok || sw.Tag != nil || sw.Init != nil || len(sw.Body.List) == 0 {
+				return true
+			}
+			if _, inBlock := c.Parent().(*ast.BlockStmt); !inBlock {
+				return true
+			}
+			bad := false
+			ast.Inspect(sw, func(m ast.Node) bool {
+				if b, ok := m.(*ast.BranchStmt); ok && (b.Tok == token.FALLTHROUGH || b.Tok == token.BREAK) {
+					bad = true
+				}
+				return true
+			})
+			var dflt *ast.CaseClause
+			var cases []*ast.CaseClause
+			for _, st := range sw.Body.List {
+				cc := st.(*ast.CaseClause)
+				if cc.List == nil {
+					if st != sw.Body.List[len(sw.Body.List)-1] {
+						bad = true // default not last: order would change
+					}
+					dflt = cc
+					continue
+				}
+				cases = append(cases, cc)
+			}
+			if bad || len(cases) == 0 {
+				return true
+			}
+			var head, cur *ast.IfStmt
+			for _, cc := range cases {
+				var cond ast.Expr = cc.List[0]
+				for _, e := range cc.List[1:] {
+					cond = &ast.BinaryExpr{X: cond, Op: token.LOR, Y: e}
+				}
+				is := &ast.IfStmt{If: cc.Pos(), Cond: cond, Body: &ast.BlockStmt{Lbrace: cc.Colon, List: cc.Body, Rbrace: cc.End()}}
+				if head == nil {
+					head = is
+				} else {
+					cur.Else = is
+				}
+				cur = is
+			}
+			if dflt != nil {
+				cur.Else = &ast.BlockStmt{Lbrace: dflt.Colon, List: dflt.Body, Rbrace: dflt.End()}
+			}
+			c.Replace(head)
+			n++
+			return true
+		})
+	case "retlocal":
+		// return f(x)  →  rq := f(x); return rq   (single-result functions)
+		if fd.Type.Results == nil || len(fd.Type.Results.List) != 1 || len(fd.Type.Results.List[0].Names) > 1 {
+			return 0
+		}
+		k := 0
+		astutil.Apply(fd.Body, func(c *astutil.Cursor) bool {
+			if _, isLit := c.Node().(*ast.FuncLit); isLit {
+				return false
+			}
+			rt, ok := c.Node().(*ast.ReturnStmt)
+			if !ok || len(rt.Results) != 1 {
+				return true
+			}
+			if _, isCall := rt.Results[0].(*ast.CallExpr); !isCall {
+				return true
+			}
+			if _, inBlock := c.Parent().(*ast.BlockStmt); !inBlock || c.Index() < 0 {
+				return true
+			}
+			k++
+			name := "rq" + strconv.Itoa(k)
+			c.InsertBefore(&ast.AssignStmt{Lhs: []ast.Expr{ast.NewIdent(name)}, Tok: token.DEFINE, Rhs: []ast.Expr{rt.Results[0]}})
+			rt.Results[0] = ast.NewIdent(name)
+			n++
+			return true
+		}, nil)
+	case "varform":
+		// x := v  →  var x = v   (single-variable short declarations at block level)
+		astutil.Apply(fd.Body, func(c *astutil.Cursor) bool {
+			as, ok := c.Node().(*ast.AssignStmt)
+			if !ok || as.Tok != token.DEFINE || len(as.Lhs) != 1 || len(as.Rhs) != 1 {
+				return true
+			}
+			if _, inBlock := c.Parent().(*ast.BlockStmt); !inBlock {
+				return true
+			}
+			id, ok := as.Lhs[0].(*ast.Ident)
+			if !ok || id.Name == "_" {
+				return true
+			}
+			c.Replace(&ast.DeclStmt{Decl: &ast.GenDecl{Tok: token.VAR, Specs: []ast.Spec{&ast.ValueSpec{Names: []*ast.Ident{id}, Values: as.Rhs}}}})
+			n++
+			return true
+		}, nil)
+	case "if2switch":
+		// if / else-if chain (no init) → tagless switch; only where no break occurs inside
+		astutil.Apply(fd.Body, func(c *astutil.Cursor) bool {
+			is, ok := c.Node().(*ast.IfStmt)
+			if !ok || is.Init != nil {
+				return true
+			}
+			if _, inBlock := c.Parent().(*ast.BlockStmt); !inBlock {
+				return true
+			}
+			if _, chained := is.Else.(*ast.IfStmt); !chained {
+				return true
+			}
+			bad := false
+			ast.Inspect(is, func(m ast.Node) bool {
+				if b, ok := m.(*ast.BranchStmt); ok && b.Tok == token.BREAK {
+					bad = true
+				}
+				return true
+			})
+			var clauses []ast.Stmt
+			var cur ast.Stmt = is
+			for cur != nil {
+				switch x := cur.(type) {
+				case *ast.IfStmt:
+					if x.Init != nil {
+						bad = true
+					}
+					clauses = append(clauses, &ast.CaseClause{List: []ast.Expr{x.Cond}, Body: x.Body.List})
+					cur = x.Else
+				case *ast.BlockStmt:
+					clauses = append(clauses, &ast.CaseClause{Body: x.List})
+					cur = nil
+				}
+			}
+			if bad {
+				return true
+			}
+			c.Replace(&ast.SwitchStmt{Body: &ast.BlockStmt{List: clauses}})
+			n++
+			return false
+		}, nil)
+	case "splitinit":
+		// if x := f(); c {…}  →  x := f(); if c {…}   when x's name is declared once in the function
+		names := map[string]int{}
+		ast.Inspect(fd, func(m ast.Node) bool {
+			if id, ok := m.(*ast.Ident); ok && info.Defs[id] != nil {
+				names[id.Name]++
+			}
+			return true
+		})
+		astutil.Apply(fd.Body, func(c *astutil.Cursor) bool {
+			is, ok := c.Node().(*ast.IfStmt)
+			if !ok || is.Init == nil {
+				return true
+			}
+			if _, inBlock := c.Parent().(*ast.BlockStmt); !inBlock || c.Index() < 0 {
+				return true
+			}
+			as, ok := is.Init.(*ast.AssignStmt)
+			if !ok || as.Tok != token.DEFINE {
+				return true
+			}
+			for _, l := range as.Lhs {
+				id, ok := l.(*ast.Ident)
+				if !ok || (id.Name != "_" && names[id.Name] != 1) {
+					return true
+				}
+			}
+			c.InsertBefore(as)
+			is.Init = nil
+			n++
+			return true
+		}, nil)
+	case "mergeinit":
+		// x := f(); if c(x) {…}  →  if x := f(); c(x) {…}   when x is used only inside the if statement
+		astutil.Apply(fd.Body, func(c *astutil.Cursor) bool {
+			blk, ok := c.Node().(*ast.BlockStmt)
+			if !ok {
+				return true
+			}
+			var out []ast.Stmt
+			for i := 0; i < len(blk.List); i++ {
+				as, ok := blk.List[i].(*ast.AssignStmt)
+				if ok && as.Tok == token.DEFINE && i+1 < len(blk.List) {
+					if is, ok := blk.List[i+1].(*ast.IfStmt); ok && is.Init == nil {
+						own := map[types.Object]bool{}
+						allNew := true
+						for _, l := range as.Lhs {
+							id, ok := l.(*ast.Ident)
+							if !ok {
+								allNew = false
+								break
+							}
+							if id.Name == "_" {
+								continue
+							}
+							if info.Defs[id] == nil {
+								allNew = false
+								break
+							}
+							own[info.Defs[id]] = true
+						}
+						outside := false
+						if allNew {
+							for id, o := range info.Uses {
+								if own[o] && !(id.Pos() >= is.Pos() && id.End() <= is.End()) {
+									outside = true
+								}
+							}
+						}
+						if allNew && !outside && len(own) > 0 {
+							is.Init = as
+							n++
+							continue
+						}
+					}
+				}
+				out = append(out, blk.List[i])
+			}
+			blk.List = out
+			return true
+		}, nil)
+	case "hoistarg":
+		// f(g(x), …) as a statement or the right-hand side of an assignment → t := g(x); f(t, …)  (first argument only)
+		k := 0
+		astutil.Apply(fd.Body, func(c *astutil.Cursor) bool {
+			if _, isLit := c.Node().(*ast.FuncLit); isLit {
+				return false
+			}
+			var call *ast.CallExpr
+			switch st := c.Node().(type) {
+			case *ast.ExprStmt:
+				call, _ = st.X.(*ast.CallExpr)
+			case *ast.AssignStmt:
+				if len(st.Rhs) == 1 {
+					call, _ = st.Rhs[0].(*ast.CallExpr)
+				}
+			}
+			if call == nil || len(call.Args) == 0 || call.Ellipsis.IsValid() {
+				return true
+			}
+			if _, inBlock := c.Parent().(*ast.BlockStmt); !inBlock || c.Index() < 0 {
+				return true
+			}
+			if !pure(call.Fun) {
+				return true
+			}
+			inner, ok := call.Args[0].(*ast.CallExpr)
+			if !ok {
+				return true
+			}
+			tv, ok := info.Types[inner]
+			if !ok || tv.IsType() || tv.Type == nil {
+				return true
+			}
+			if _, isTuple := tv.Type.(*types.Tuple); isTuple {
+				return true
+			}
+			if ftv, ok := info.Types[inner.Fun]; ok && ftv.IsType() {
+				return true // conversion
+			}
+			if b, ok := tv.Type.(*types.Basic); ok && b.Info()&types.IsUntyped != 0 {
+				return true
+			}
+			k++
+			name := "hq" + strconv.Itoa(k)
+			c.InsertBefore(&ast.AssignStmt{Lhs: []ast.Expr{ast.NewIdent(name)}, Tok: token.DEFINE, Rhs: []ast.Expr{inner}})
+			call.Args[0] = ast.NewIdent(name)
+			n++
+			return true
+		}, nil)
+	case "ret2else":
+		// function body:  …; if c {…; return}; REST   →   …; if c {…; return} else {REST}
+		list := fd.Body.List
+		for i, st := range list {
+			is, ok := st.(*ast.IfStmt)
+			if !ok || is.Else != nil || len(is.Body.List) == 0 || i == len(list)-1 {
+				continue
+			}
+			if _, isRet := is.Body.List[len(is.Body.List)-1].(*ast.ReturnStmt); !isRet {
+				continue
+			}
+			hasLabel := false
+			for _, r := range list[i+1:] {
+				if _, ok := r.(*ast.LabeledStmt); ok {
+					hasLabel = true
+				}
+			}
+			if hasLabel {
+				continue
+			}
+			// Go requires a terminating statement at the end of a function with results: if/else with both arms returning qualifies
+			is.Else = &ast.BlockStmt{List: append([]ast.Stmt{}, list[i+1:]...)}
+			fd.Body.List = list[:i+1]
+			n++
+			break
+		}
+	case "splitand":
+		// if a && b {X} (no else, no init) → if a { if b {X} }
+		ast.Inspect(fd.Body, func(nd ast.Node) bool {
+			is, ok := nd.(*ast.IfStmt)
+			if !ok || is.Else != nil || is.Init != nil {
+				return true
+			}
+			be, ok := is.Cond.(*ast.BinaryExpr)
+			if !ok || be.Op != token.LAND {
+				return true
+			}
+			inner := &ast.IfStmt{Cond: be.Y, Body: is.Body}
+			is.Cond = be.X
+			is.Body = &ast.BlockStmt{List: []ast.Stmt{inner}}
+			n++
+			return true
+		})
+	case "lencmp":
+		// len(x) == 0 → len(x) < 1;  len(x) > 0 → len(x) != 0;  len(x) != 0 → len(x) >= 1;  s == "" → len(s) == 0;  s != "" → len(s) > 0
+		astutil.Apply(fd.Body, func(c *astutil.Cursor) bool {
+			be, ok := c.Node().(*ast.BinaryExpr)
+			if !ok {
+				return true
+			}
+			isLen := func(e ast.Expr) bool {
+				cl, ok := e.(*ast.CallExpr)
+				if !ok {
+					return false
+				}
+				id, ok := cl.Fun.(*ast.Ident)
+				return ok && id.Name == "len" && info.Uses[id] != nil && info.Uses[id].Pkg() == nil
+			}
+			lit := func(e ast.Expr, v string) bool {
+				b, ok := e.(*ast.BasicLit)
+				return ok && b.Value == v
+			}
+			switch {
+			case isLen(be.X) && lit(be.Y, "0") && be.Op == token.EQL:
+				be.Op, be.Y = token.LSS, &ast.BasicLit{Kind: token.INT, Value: "1"}
+				n++
+			case isLen(be.X) && lit(be.Y, "0") && be.Op == token.GTR:
+				be.Op = token.NEQ
+				n++
+			case isLen(be.X) && lit(be.Y, "0") && be.Op == token.NEQ:
+				be.Op, be.Y = token.GEQ, &ast.BasicLit{Kind: token.INT, Value: "1"}
+				n++
+			case lit(be.Y, `""`) && (be.Op == token.EQL || be.Op == token.NEQ) && pure(be.X):
+				if _, isCase := c.Parent().(*ast.CaseClause); isCase {
+					return true
+				}
+				be.X = &ast.CallExpr{Fun: ast.NewIdent("len"), Args: []ast.Expr{be.X}}
+				be.Y = &ast.BasicLit{Kind: token.INT, Value: "0"}
+				if be.Op == token.NEQ {
+					be.Op = token.GTR
+				}
+				n++
+			}
+			return true
+		}, nil)
+	case "incr":
+		// i++ → i += 1 ;  x += y → x = x + y (pure x)
+		astutil.Apply(fd.Body, func(c *astutil.Cursor) bool {
+			switch st := c.Node().(type) {
+			case *ast.IncDecStmt:
+				if _, inFor := c.Parent().(*ast.ForStmt); inFor {
+					return true
+				}
+				op := token.ADD_ASSIGN
+				if st.Tok == token.DEC {
+					op = token.SUB_ASSIGN
+				}
+				c.Replace(&ast.AssignStmt{Lhs: []ast.Expr{st.X}, Tok: op, Rhs: []ast.Expr{&ast.BasicLit{Kind: token.INT, Value: "1"}}})
+				n++
+			case *ast.AssignStmt:
+				if st.Tok == token.ADD_ASSIGN && len(st.Lhs) == 1 && pure(st.Lhs[0]) {
+					st.Tok = token.ASSIGN
+					st.Rhs[0] = &ast.BinaryExpr{X: st.Lhs[0], Op: token.ADD, Y: &ast.ParenExpr{X: st.Rhs[0]}}
+					n++
+				}
+			}
+			return true
+		}, nil)
+	case "boolret":
+		// return c (bool, not a literal) → if c {return true}; return false
+		if fd.Type.Results == nil || len(fd.Type.Results.List) != 1 || len(fd.Type.Results.List[0].Names) > 1 {
+			return 0
+		}
+		if id, ok := fd.Type.Results.List[0].Type.(*ast.Ident); !ok || id.Name != "bool" {
+			return 0
+		}
+		astutil.Apply(fd.Body, func(c *astutil.Cursor) bool {
+			if _, isLit := c.Node().(*ast.FuncLit); isLit {
+				return false
+			}
+			rt, ok := c.Node().(*ast.ReturnStmt)
+			if !ok || len(rt.Results) != 1 {
+				return true
+			}
+			if id, ok := rt.Results[0].(*ast.Ident); ok && (id.Name == "true" || id.Name == "false") {
+				return true
+			}
+			if _, inBlock := c.Parent().(*ast.BlockStmt); !inBlock || c.Index() < 0 {
+				return true
+			}
+			c.InsertBefore(&ast.IfStmt{Cond: rt.Results[0], Body: &ast.BlockStmt{List: []ast.Stmt{&ast.ReturnStmt{Results: []ast.Expr{ast.NewIdent("true")}}}}})
+			rt.Results[0] = ast.NewIdent("false")
+			n++
+			return true
+		}, nil)
+	case "predfunc":
+		// if <compound condition over locals> {…} → if nfPredN(locals…) {…} with a new package-level predicate
+		imported := map[string]bool{}
+		for _, im := range f.Imports {
+			pth, _ := strconv.Unquote(im.Path.Value)
+			if im.Name == nil {
+				imported[pth] = true
+			}
+		}
+		okType := true
+		qual := func(q *types.Package) string {
+			if q == p.Types {
+				return ""
+			}
+			if !imported[q.Path()] {
+				okType = false
+			}
+			return q.Name()
+		}
+		ast.Inspect(fd.Body, func(nd ast.Node) bool {
+			if _, isLit := nd.(*ast.FuncLit); isLit {
+				return false
+			}
+			is, ok := nd.(*ast.IfStmt)
+			if !ok {
+				return true
+			}
+			be, ok := is.Cond.(*ast.BinaryExpr)
+			if !ok || (be.Op != token.LAND && be.Op != token.LOR) {
+				return true
+			}
+			// free local variables of the condition
+			var order []*types.Var
+			seen := map[*types.Var]bool{}
+			bad := false
+			ast.Inspect(is.Cond, func(m ast.Node) bool {
+				if _, isLit := m.(*ast.FuncLit); isLit {
+					bad = true
+					return false
+				}
+				id, ok := m.(*ast.Ident)
+				if !ok {
+					return true
+				}
+				v, ok := info.Uses[id].(*types.Var)
+				if !ok || v.IsField() || v.Parent() == p.Types.Scope() || v.Pkg() != p.Types {
+					return true
+				}
+				if !seen[v] {
+					seen[v] = true
+					order = append(order, v)
+				}
+				return true
+			})
+			if bad || len(order) == 0 {
+				return true
+			}
+			okType = true
+			var params, args []string
+			for _, v := range order {
+				params = append(params, v.Name()+" "+types.TypeString(v.Type(), qual))
+				args = append(args, v.Name())
+			}
+			if !okType {
+				return true
+			}
+			constN++
+			name := "nfPred" + strconv.Itoa(constN)
+			var buf bytes.Buffer
+			format.Node(&buf, p.Fset, is.Cond)
+			src := "package x\nfunc " + name + "(" + strings.Join(params, ", ") + ") bool {\n\treturn " + buf.String() + "\n}\n"
+			pf, err := parser.ParseFile(token.NewFileSet(), "", src, 0)
+			if err != nil {
+				return true
+			}
+			nd2 := pf.Decls[0].(*ast.FuncDecl)
+			stripPos(nd2)
+			f.Decls = append(f.Decls, nd2)
+			var ax []ast.Expr
+			for _, a := range args {
+				ax = append(ax, ast.NewIdent(a))
+			}
+			is.Cond = &ast.CallExpr{Fun: ast.NewIdent(name), Args: ax}
+			n++
+			return true
+		})
+	case "rangeidx":
+		// for _, x := range xs {…} over a slice named by an identifier/selector → for i := range xs { x := xs[i]; … }
+		k := 0
+		ast.Inspect(fd.Body, func(nd ast.Node) bool {
+			rs, ok := nd.(*ast.RangeStmt)
+			if !ok || rs.Tok != token.DEFINE || rs.Value == nil || !pure(rs.X) {
+				return true
+			}
+			if kid, ok := rs.Key.(*ast.Ident); !ok || kid.Name != "_" {
+				return true
+			}
+			vid, ok := rs.Value.(*ast.Ident)
+			if !ok || vid.Name == "_" {
+				return true
+			}
+			if _, isSlice := info.TypeOf(rs.X).Underlying().(*types.Slice); !isSlice {
+				return true
+			}
+			// the slice must not be reassigned inside the loop
+			reassigned := false
+			ast.Inspect(rs.Body, func(m ast.Node) bool {
+				if as, ok := m.(*ast.AssignStmt); ok {
+					for _, l := range as.Lhs {
+						var b1, b2 bytes.Buffer
+						format.Node(&b1, p.Fset, l)
+						format.Node(&b2, p.Fset, rs.X)
+						if b1.String() == b2.String() {
+							reassigned = true
+						}
+					}
+				}
+				return true
+			})
+			if reassigned {
+				return true
+			}
+			k++
+			idx := ast.NewIdent("ri" + strconv.Itoa(k))
+			rs.Key = idx
+			rs.Value = nil
+			def := &ast.AssignStmt{Lhs: []ast.Expr{vid}, Tok: token.DEFINE, Rhs: []ast.Expr{&ast.IndexExpr{X: rs.X, Index: ast.NewIdent(idx.Name)}}}
+			rs.Body.List = append([]ast.Stmt{def}, rs.Body.List...)
+			n++
+			return true
+		})
 	default:
 		fmt.Fprintln(os.Stderr, "unknown transform", tr)
 		os.Exit(2)
@@ -264,4 +879,52 @@ func sanitize(s string) string {
 		}
 		return r
 	}, s)
+}
+
+// stripPos clears the positions of a freshly parsed declaration so that the
+// printer does not interleave it with the host file's comments.
+func stripPos(n ast.Node) {
+	ast.Inspect(n, func(m ast.Node) bool {
+		switch x := m.(type) {
+		case *ast.Ident:
+			x.NamePos = 0
+		case *ast.BasicLit:
+			x.ValuePos = 0
+		case *ast.FuncDecl:
+			x.Type.Func = 0
+		case *ast.BlockStmt:
+			x.Lbrace, x.Rbrace = 0, 0
+		case *ast.ReturnStmt:
+			x.Return = 0
+		case *ast.BinaryExpr:
+			x.OpPos = 0
+		case *ast.UnaryExpr:
+			x.OpPos = 0
+		case *ast.CallExpr:
+			x.Lparen, x.Rparen = 0, 0
+		case *ast.ParenExpr:
+			x.Lparen, x.Rparen = 0, 0
+		case *ast.FieldList:
+			x.Opening, x.Closing = 0, 0
+		case *ast.StarExpr:
+			x.Star = 0
+		case *ast.IndexExpr:
+			x.Lbrack, x.Rbrack = 0, 0
+		case *ast.ArrayType:
+			x.Lbrack = 0
+		case *ast.MapType:
+			x.Map = 0
+		case *ast.TypeAssertExpr:
+			x.Lparen, x.Rparen = 0, 0
+		case *ast.CompositeLit:
+			x.Lbrace, x.Rbrace = 0, 0
+		case *ast.InterfaceType:
+			x.Interface = 0
+		case *ast.FuncType:
+			x.Func = 0
+		case *ast.SliceExpr:
+			x.Lbrack, x.Rbrack = 0, 0
+		}
+		return true
+	})
 }
